@@ -394,7 +394,7 @@ def run(ctx):
     ctx.extra['refinement_notes'] = notes
     for i, rec in enumerate(recs):
         ctx.case('%s|%s|%d|%d' % (rec['alg'], rec['kind'], rec['n'], i), nontrivial=(rec['err'] in ('', 'rejected-as-expected')))
-    ctx.sample({'lane_record': {k: v for k, v in next(x for x in recs if x['evals']).items()}})
+    ctx.sample({'lane_record': {k: v for k, v in next((x for x in recs if x['evals']), recs[0]).items()}})
     ctx.exhaustive = False
     import shutil
     for d in _PF:
